@@ -264,6 +264,12 @@ func (c *Ctx) reconstructBase(r *report.Result) map[string]string {
 		r.Ok(fmt.Sprintf("%s: %d hunks reverse-apply exactly", f, len(hs)))
 		base[f] = orig
 	}
+	// fmtsort is imported verbatim (a header is prepended, nothing patched)
+	if b, err := os.ReadFile(filepath.Join(c.P.Dir, "internal/rfmt/fmtsort/sort.go")); err == nil {
+		base["sort.go"] = string(b)
+	} else {
+		r.Fail("internal/rfmt/fmtsort/sort.go / import base", "internal/rfmt/fmtsort/sort.go", "cannot read the file", nil, "")
+	}
 	return base
 }
 
@@ -274,7 +280,7 @@ func (c *Ctx) compareWithReference(r *report.Result, base map[string]string, gen
 		r.Undecide("no reference fmt sources under " + c.oracleDir())
 		return
 	}
-	for _, f := range []string{"print.go", "format.go"} {
+	for _, f := range []string{"print.go", "format.go", "sort.go"} {
 		src, ok := base[f]
 		if !ok {
 			continue
@@ -318,8 +324,10 @@ func (c *Ctx) compareWithReference(r *report.Result, base map[string]string, gen
 			for _, rd := range rds {
 				up, exists := rd.funcs[k]
 				if !exists {
-					why = "function does not exist in the reference fmt (" + rd.name + ")"
-					continue
+					// removed upstream since the import: admissible only as a
+					// recorded evolution (the whole body is the difference)
+					up = nil
+					why = "function does not exist in the reference fmt (" + rd.name + ") and its removal is not recorded"
 				}
 				d := lineDiff(bt[k], up)
 				if gen != nil && rd.name == "go1.23.5" || gen != nil && len(rds) == 1 {
@@ -342,10 +350,14 @@ func (c *Ctx) compareWithReference(r *report.Result, base map[string]string, gen
 					why = fmt.Sprintf("differs from %s's fmt beyond the recorded upstream evolution: %s", rd.name, strings.Join(firstN(d, 4), " | "))
 				}
 			}
+			path := "internal/rfmt/" + f
+			if f == "sort.go" {
+				path = "internal/rfmt/fmtsort/sort.go"
+			}
 			if okAny {
 				r.Ok(construct + " = standard library")
 			} else {
-				r.Fail(construct, "internal/rfmt/"+f, "the import base of "+k+" "+why, nil, "")
+				r.Fail(construct, path, "the import base of "+k+" "+why, nil, "")
 			}
 		}
 	}
@@ -371,7 +383,7 @@ func equalStrings(a, b []string) bool {
 }
 
 func ruleC04a(c *Ctx) []*report.Result {
-	r := report.NewResult("C04.a", "print.go and format.go are exactly the import base plus the recorded patch (reverse-applying the shipped .diff succeeds with no fuzz), and every function of the reconstructed import base equals the function of the same name in the standard library's fmt (reference sources under checker/oracle), textually after dropping comments and trivial renamings, or differs from it exactly by the recorded upstream evolution of that function", 60)
+	r := report.NewResult("C04.a", "print.go and format.go are exactly the import base plus the recorded patch (reverse-applying the shipped .diff succeeds with no fuzz), fmtsort/sort.go is imported verbatim, and every function of the (reconstructed) import base equals the function of the same name in the standard library's fmt (reference sources under checker/oracle), textually after dropping comments and trivial renamings, or differs from it exactly by the recorded upstream evolution of that function", 60)
 	base := c.reconstructBase(r)
 	c.compareWithReference(r, base, nil)
 	r.Analysed = fmt.Sprintf("references: %s", c.oracleDir())
@@ -394,7 +406,7 @@ func GenEvolution(c *Ctx) error {
 		one := filepath.Join(os.TempDir(), "oracle-one")
 		os.RemoveAll(one)
 		os.MkdirAll(filepath.Join(one, filepath.Base(rd)), 0o755)
-		for _, f := range []string{"print.go.txt", "format.go.txt"} {
+		for _, f := range []string{"print.go.txt", "format.go.txt", "sort.go.txt"} {
 			b, _ := os.ReadFile(filepath.Join(rd, f))
 			os.WriteFile(filepath.Join(one, filepath.Base(rd), f), b, 0o644)
 		}
